@@ -40,8 +40,12 @@ def exhaustive_type_table(eng):
                         leafs = [("L", (kind, r.bytes(n))) for n in (res, res + 4, res + 4092)]
                     elif kind == "ae":
                         leafs = [("L", (kind, b"1234567890123456"[: n])) for n in (1 + res, 5 + res, 9 + res, 12 + res) if n <= 15]
+                        leafs += [("L", (kind, b"+123456789012345"[: n])) for n in (1 + res, 6 + res, 12 + res) if n <= 15]
                     elif kind == "grp":
                         leafs = [("GN", [("E", 1011, None, 0, ("L", ("oct", r.bytes(res))))] * k) for k in (0, 1, 2)]
+                        if fl == 0 and res in (1, 3):
+                            # many members that each need padding: the padding octets of a group add up past 255 and 65535/… boundaries of narrow counters
+                            leafs += [("GN", [("E", 1011, None, 0, ("L", ("oct", r.bytes(res))))] * k) for k in (85, 86, 90, 300)]
                     else:
                         if res:
                             continue
@@ -334,6 +338,23 @@ def check_C02(chk, tier, seed):
             stage2.append(f"X {did} {im[im.rindex(' ENC ') + 5:]}")
             idx.append(i)
     impl2, model2 = eng.run(stage2)
+    # the encodings once more through the other readers (one octet per read() call; the frame sitting 1..5 octets into the
+    # buffer): what comes back must not depend on how the reader hands the octets out
+    var_lines = []
+    for k, l in enumerate(stage2):
+        _, did, fx = l.split()
+        var_lines.append(f"XD {did} {fx}" if k % 2 == 0 else f"XO {did} {1 + (k // 2) % 5} {fx}")
+    implv, _ = eng.run(var_lines)
+    for k, (l, a, b) in enumerate(zip(var_lines, impl2, implv)):
+        chk.count("stage2-reader:" + l.split()[0])
+        if a != b:
+            if b.startswith("PANIC") or b.startswith("CRASH"):
+                chk.violation("decoding the library's own encoding through another reader crashed", dict(case=l, impl=short(b)))
+            elif a.startswith("OK "):
+                chk.violation("decode(encode(m)) depends on the reader: the same octets read through a reader that hands out one octet per call / "
+                              "that starts inside its buffer give a different result", dict(case=l, plain=short(a, 3000), variant=short(b, 3000)))
+            else:
+                chk.corr_break("a refused frame is refused differently through another reader", dict(case=l, plain=short(a, 600), variant=short(b, 600)))
     for k, i in enumerate(idx):
         c, im, mo = cases[i], impl[i], model[i]
         mobs, o = split_obs(mo)
@@ -521,6 +542,16 @@ def check_C03(chk, tier, seed):
     fam += [("regress", c.split()[1], bytes.fromhex(c.split()[2][1:]), False) for c in regress_cases("C03") if c.startswith("X ")]
     fam += [("display-stress", did, f, True) for did, f in display_stress_frames(eng)]
     fam += value_position_sweeps(eng, tier)
+    # values larger than the 1 MiB the STREAM reader accepts: decode_from itself has no such limit (up to the 2^24 the wire can carry)
+    gg = {d["ty"]: d for d in eng.dicts["g"].live() if d["vendor"] is None and 1000 <= d["code"] < 1100}
+    for n in ([(1 << 20) + 1] if tier == "quick" else [(1 << 20) + 1, 5 << 20]):
+        ln = 8 + n
+        big = gen.be(gg["oct"]["code"], 4) + b"\0" + gen.be(ln, 3) + bytes(n) + b"\0" * ((4 - ln % 4) % 4)
+        fam.append(("large-value", "g", bytes([1]) + gen.be(20 + len(big), 3) + bytes([0x80]) + gen.be(272, 3) + gen.be(4, 4) + gen.be(1, 4) + gen.be(2, 4) + big, True))
+    third = 400 * 1024
+    member = gen.be(gg["oct"]["code"], 4) + b"\0" + gen.be(8 + third, 3) + bytes(third)
+    grp = gen.be(gg["grp"]["code"], 4) + b"\0" + gen.be(8 + 3 * len(member), 3) + member * 3
+    fam.append(("large-value", "g", bytes([1]) + gen.be(20 + len(grp), 3) + bytes([0x80]) + gen.be(272, 3) + gen.be(4, 4) + gen.be(1, 4) + gen.be(2, 4) + grp, True))
     cases = [f"X {did} {xb(f)}" for (_, did, f, _) in fam]
     # the same frames again through other readers: sitting 1, 2, 3 or 5 octets into the buffer (a decoder that aligns
     # padding to the reader's position instead of the value's length), and through a reader that hands out one octet per
@@ -632,6 +663,25 @@ def check_C04(chk, tier, seed):
                         bodies.append(gen.be(grp[0]["code"], 4) + b"\0" + gen.be(8 + len(avp), 3) + avp)
                     for body in bodies:
                         fam.append(("unknown-typed", did, bytes([1]) + gen.be(20 + len(body), 3) + bytes([0x80]) + gen.be(272, 3) + gen.be(4, 4) + gen.be(1, 4) + gen.be(2, 4) + body, False))
+    # fixed-size values whose AVP declares fewer (or more) octets than the value has, the enclosing length compensating so
+    # that the decoder's own bookkeeping comes out even (recorded finding KF-1: such frames are accepted): whatever is
+    # returned must still be formattable, inspectable and re-encodable without a trap
+    gl = {d["ty"]: d for d in eng.dicts["g"].live() if d["vendor"] is None and 1000 <= d["code"] < 1100}
+    for ty, size in (("u32", 4), ("i32", 4), ("en", 4), ("f32", 4), ("time", 4), ("ip4", 4), ("u64", 8), ("i64", 8), ("f64", 8), ("ip6", 16)):
+        d = gl.get(ty)
+        if not d:
+            continue
+        for vend in (None, 10415):
+            h = 12 if vend is not None else 8
+            code = d["code"] if vend is None else 2000 + (d["code"] - 1000)
+            for decl in list(range(h, h + size)) + [h + size + 1, h + size + 4, h + size + 8]:
+                vl = decl - h
+                pad = (4 - vl % 4) % 4
+                avp = gen.be(code, 4) + bytes([0x80 if vend is not None else 0]) + gen.be(decl, 3) + (gen.be(vend, 4) if vend is not None else b"") + bytes(range(1, size + 1))
+                tailavp = gen.be(1011, 4) + b"\0" + gen.be(8 + 4, 3) + b"tail"
+                for announce in (20 + decl + pad, 20 + decl + pad + len(tailavp)):
+                    body = avp + b"\0" * 12 + (tailavp if announce > 20 + decl + pad else b"")
+                    fam.append(("fixed-size-length-lie", "g", bytes([1]) + gen.be(announce, 3) + bytes([0x80]) + gen.be(272, 3) + gen.be(4, 4) + gen.be(1, 4) + gen.be(2, 4) + body, False))
     tab = eng.ask_model(exhaustive_type_table(eng))
     for m in tab:
         _, o = split_obs(m)
